@@ -305,6 +305,9 @@ def call_by_contract(I, node, qual, args, kwargs, st, ctor=None):
             b['result'] = res
             for e in c.ensures:
                 assume_expr(I, e, b, st1, scope)
+            if isinstance(c.returns, MutOpaque) and c.returns.name == 'Segment':
+                from . import segmodel
+                segmodel.ctor_facts(I, st1, res, env)
             if I.feasible(st1.pc):
                 yield st1, res
         return
